@@ -263,6 +263,13 @@ def header_classes(rng, user, pw, stored, thorough):
         out.append(('random-bytes', ['Authorization: Basic ' + b64(raw)], None))
         txt = ''.join(rng.choice('AQ=:+/ ab*') for _ in range(rng.randrange(0, 10)))
         out.append(('random-cookie', ['Authorization: Basic ' + txt], None))
+    if not pw_right(pw, stored):
+        # the stored entry is not satisfied by `pw` (e.g. a plain password that itself starts with {SHA})
+        out = [(l, h, False if r is True else r) for l, h, r in out]
+    if ':' in user:
+        # RFC 7617: a user-id cannot contain ':'; the split on the first colon makes every request a mismatch
+        # (fails closed).  Boundary of "requests with the right credentials are served", not a defect.
+        out = [(l, h, False if r is not None else None) for l, h, r in out]
     return out
 
 
@@ -421,6 +428,7 @@ def run_level_b(ctx):
     rng = ctx.rng
     thorough = ctx.tier == 'thorough'
     configs = [('user', 'secret', False, 'auth'), ('user', 'secret', True, 'auth'), ('üser', 'p:w', False, 'auth'),
+               ('u', '', False, 'auth'),
                ('', 'secret', False, 'empty-username'), (None, None, False, 'no-auth')]
     cases, impls = [], []
     for username, pw, sha, mode in configs:
@@ -433,7 +441,7 @@ def run_level_b(ctx):
                     ctx.violation('handler-not-wrapped', '%s server: handlers not behind supervisor_auth_handler: %s'
                                   % (fam, sorted(k for k, v in wrapped.items() if not v)),
                                   {'level': 'B', 'username': username, 'stored': stored, 'family': fam})
-                hcs = header_classes(rng, username or 'user', pw or 'secret', stored or 'secret', False)
+                hcs = header_classes(rng, username or 'user', 'secret' if pw is None else pw, 'secret' if stored is None else stored, False)
                 # every path with the main header classes; every header class on a few paths
                 main = [h for h in hcs if h[0] in ('absent', 'right', 'wrong-user', 'password-extension', 'missing-colon',
                                                    'bad-base64-chars', 'digest', 'empty-password', 'non-utf8', 'oversized')]
@@ -452,12 +460,12 @@ def run_level_b(ctx):
                     keep = [r for r in reqs if r[3][0] in ('absent', 'right')]
                     rest = [r for r in reqs if r[3][0] not in ('absent', 'right')]
                     rng.shuffle(rest)
-                    reqs = keep[:120] + rest[:260]
+                    reqs = keep[:60] + rest[:150]
                 ops, lines = [], []
                 for method, path, version, (label, header, right) in reqs:
                     if any('\n' in l or '\r' in l for l in header):
                         continue      # cannot be framed as one header line on the wire
-                    raw = ('%s %s%s\r\n' % (method, path, version) + '\r\n'.join(header)).encode('utf-8')
+                    raw = '\r\n'.join(['%s %s%s' % (method, path, version)] + list(header)).encode('utf-8')
                     status, data = channel_request(hsrv, log, raw)
                     handled = [e for e in log if e[0] == 'handle']
                     matched = [e[1] for e in log if e[0] == 'match' and e[2]]
